@@ -237,7 +237,7 @@ def adjudicate(u, const_path, cases, obs, blobs, init_kind, tag, stats):
         a = textabs.abstract(text, u.note, u.tab, register=False)
         if a["ok"]:
             btab[bid] = {"ok": True, "notice": a["notice"], "nl_end": a["nl_end"],
-                         "imports": [{"spec": i["spec"], "names": i["names"]} for i in a["imports"]],
+                         "imports": [{"spec": i["spec"], "names": i["names"], "chars": list(i["spec_s"])} for i in a["imports"]],
                          "blocks": [b["id"] for b in a["blocks"]]}
         else:
             btab[bid] = {"ok": False, "notice": False, "nl_end": text.endswith("\n"), "imports": [], "blocks": []}
